@@ -130,7 +130,7 @@ func S2a(tier string, fees bool) *Scenario {
 		Cancellers: []string{"auc1"},
 		MaxK:       7, Rejects: true, BlockStops: []int{1, 2, 3, 4, 5, 6},
 	}
-	bud := Budget{"create": 1, "allow": 2, "update": 1, "bid": 2, "mod": 1, "cancel": 1, "block": 5, "tick": 0}
+	bud := Budget{"create": 1, "allow": 2, "update": 1, "bid": 2, "mod": 1, "cancel": 1, "block": 5, "tick": 1}
 	exts := []uint32{0, 2}
 	if tier == "thorough" {
 		exts = []uint32{0, 1, 2}
@@ -361,7 +361,8 @@ func S2c(tier string, rate string, period uint32) *Scenario {
 			bud["tick"] = 2
 		}
 		if period == 2 {
-			al.BlockStops = []int{2, 4, 5, 6}
+			// 3 and 5 lie strictly inside the extended rounds [2,4) and [4,6)
+			al.BlockStops = []int{2, 3, 4, 5, 6}
 		}
 	}
 	return scenFrom(fmt.Sprintf("S2c-extension-rate%s-period%d", rate, period), cfg, pre, bud, al, nil)
